@@ -12,6 +12,12 @@ def _c(text, ref):
 
 
 CLAIMS = {
+    "C19": _c("Bounded symbolic model checking of extend_schema / build_schema / lexicographic_sort_schema / find_schema_changes: a "
+              "base SDL with every single piece and every pair (both orders) of 16 extension pieces, definitions moved between base "
+              "and extension under three definition orders, no-op extension, self-comparison and sorting on the 256 family schemas, "
+              "25 single edits judged through three routes for the second schema, and the total-order laws of the natural sort key "
+              "on symbolic strings. Assertions: extend == build (printed form and no detected changes), original untouched, no-op "
+              "returns the original, sort only reorders and is idempotent, reported changes are real.", "DESIGN.md section 7, C19"),
     "C18": _c("Bounded symbolic model checking of get_introspection_query / introspection execution / build_client_schema over two "
               "schema families (256 SDL variants, 64 programmatic variants with adversarial strings and Python-valued defaults): "
               "every one of the 128 option combinations (solver-forked mask) must validate, execute without errors and equal the "
